@@ -53,6 +53,8 @@ func main() {
 			checkC19(c)
 		case "C20":
 			checkC20(c)
+		case "C07":
+			checkC07(c)
 		case "C08":
 			checkC08(c)
 		case "C09":
